@@ -1724,13 +1724,16 @@ impl Block {
                                             //
                                             // Create a special rebroadcast for triple NFT group
                                             //
-                                            let rebroadcast_tx =
+                                            let mut rebroadcast_tx =
                                                 Transaction::create_rebroadcast_bound_transaction(
                                                     transaction,
                                                     output1,
                                                     input2.clone(),
                                                     output3,
                                                 );
+                                            // the rebroadcast fee booked below is paid by the payload slip
+                                            rebroadcast_tx.to[1].amount = output2.amount;
+                                            rebroadcast_tx.generate_total_fees(0, 0);
 
                                             uncapped_total_payout_atr +=
                                                 surplus_payout_to_subtract_from_treasury;
